@@ -153,6 +153,7 @@ type scriptedWatcher struct {
 	syncConsumer func() // returns when the consumer has processed every event it received
 	late         map[int]LateSpec
 	lateSent     int
+	selfClosed   int // times the watcher stopped by itself after a fatal error
 
 	mu      sync.Mutex
 	log     []Item
@@ -296,6 +297,15 @@ func (w *scriptedWatcher) Watch(ctx context.Context, _ object.ObjMetadataSet, _ 
 				// that completes at once is left alone: no race with its completion)
 				if w.board.running(k) {
 					send(pollevent.Event{Type: pollevent.ErrorEvent, Error: fmt.Errorf("scripted watcher failure")})
+					if k%2 == 0 {
+						// like DefaultStatusWatcher after a fatal error: the watcher stops by itself and its
+						// channel closes while the run is still going (the runner sees the closed channel
+						// before the cancelled wait task reports back) — seeds C12f / C13f
+						w.mu.Lock()
+						w.selfClosed++
+						w.mu.Unlock()
+						return
+					}
 					break
 				}
 				continue
